@@ -144,6 +144,7 @@ class World:
         self.fs = SimFS()       # durable storage for C19 checkpoints
         self.last_applied = None
         self.matcache = {}      # shared material objects of this lens
+        self.nested = False
         self.shape = []
 
     # ---- helpers
@@ -223,6 +224,12 @@ class World:
     def op_add_surface(self, op):
         if self.model.synced:
             op = dict(op, index=self.model.n)   # always append in index order
+        if op.get('via_object') and op['index'] >= 2:
+            # nested coordinate systems: vertex positions are no longer the
+            # running sum the model knows (C19 only; the lens is compared
+            # with its reloaded copy, not with the model), and the thickness
+            # machinery (which equates local and global z) is left alone
+            self.nested = True
         self._build(op)
         self.stats['state_changes'] += 1
 
@@ -1174,7 +1181,7 @@ class World:
         if obs['stop'] != [bool(s['stop']) for s in m.surfs]:
             bad('stop', 'which', f'stop flags {obs["stop"]}, expected '
                 f'{[bool(s["stop"]) for s in m.surfs]}')
-        if not m.synced:
+        if not m.synced or self.nested:
             return
         exp = m.expected()
         if obs['primary'] != exp['primary']:
@@ -1315,6 +1322,10 @@ def gen_edit(ch, w, sw):
     m = w.model
     kinds = sw['kinds'] if m.synced else \
         ['insert', 'remove', 'read', 'add_wavelength']
+    if w.nested:
+        kinds = [k_ for k_ in kinds if k_ in (
+            'set_radius', 'set_conic', 'set_index', 'read', 'ckpt',
+            'add_wavelength', 'bad_call', 'set_asphere_coeff')] or ['ckpt']
     kind = ch.weighted([(k, sw['weights'].get(k, 0.5)) for k in kinds],
                        tag='kind')
     n = m.n
@@ -1495,7 +1506,7 @@ C07_FEATS = ['conic', 'tilt', 'mirror', 'glass', 'abbe', 'absorb',
 C19_FEATS = [x for x in lensgen.ALL_FEATURES if x != 'bsdf']
 C01_FEATS = [x for x in lensgen.ALL_FEATURES
              if x not in ('bsdf', 'coat_simple', 'coat_fresnel', 'polarized',
-                          'telecentric')]
+                          'telecentric', 'nested_cs')]
 
 
 def swarm(ch, prop, cfg):
